@@ -18,6 +18,7 @@ CONSTANTS
   MaxDiscs = 8
   VerifyArgs <- VArgs
   Ticks = {0, 7200}
+  NarrowSels <- NoNarrow
   KeyFam <- Fam
 INVARIANTS Inv_C01 Inv_C02 Inv_C03 Inv_C04 Inv_C09 EmitScenario
 CHECK_DEADLOCK FALSE
